@@ -134,11 +134,23 @@ func (s *Server) serve(ctx context.Context, listener net.Listener, handler Modbu
 	l := onceCloseListener{Listener: listener}
 	defer l.Close()
 
+	// Accept blocks until next connection arrives. Close the listener when context is cancelled so serve returns
+	// also when it is waiting for connections.
+	serveDone := make(chan struct{})
+	defer close(serveDone)
+	go func() {
+		select {
+		case <-ctx.Done():
+			_ = l.Close()
+		case <-serveDone:
+		}
+	}()
+
 	for {
 		netConn, err := l.Accept()
 		if err != nil {
 			verifPoint("serve.ret", nil, 0)
-			if s.isShutdown.Load() {
+			if s.isShutdown.Load() || ctx.Err() != nil {
 				return ErrServerClosed
 			}
 			return err
